@@ -356,6 +356,64 @@ impl Ctx {
     self.reports.lock().unwrap().push(rep);
   }
 
+  /// Thorough tier: re-judge, outside libFuzzer, every artifact (crash input) a libFuzzer campaign left under
+  /// `$PV_FUZZ_DIR/<target>/artifacts`, and fold the campaign's statistics (`stats.json`) into the evidence.
+  /// Without a campaign directory this is a no-op.
+  pub fn fuzz_inputs<S: Sub>(&self, sub: &S, target: &str, decode: impl Fn(&[u8]) -> Option<S::Case>) {
+    let dir = match std::env::var("PV_FUZZ_DIR") {
+      Ok(d) => PathBuf::from(d).join(target),
+      Err(_) => return,
+    };
+    if !dir.exists() {
+      return;
+    }
+    let t0 = Instant::now();
+    let mut rep = SubReport { name: sub.name(), exhaustive: Some(false), ..Default::default() };
+    let mut seen: HashSet<String> = HashSet::new();
+    let mut files: Vec<PathBuf> = vec![];
+    for sub_dir in ["artifacts"] {
+      if let Ok(rd) = std::fs::read_dir(dir.join(sub_dir)) {
+        for e in rd.flatten() {
+          files.push(e.path());
+        }
+      }
+    }
+    files.sort();
+    for (i, f) in files.iter().enumerate() {
+      let data = match std::fs::read(f) {
+        Ok(d) => d,
+        Err(_) => continue,
+      };
+      let case = match decode(&data) {
+        Some(c) => c,
+        None => {
+          rep.discards += 1;
+          continue;
+        }
+      };
+      let mut cl = Classes::default();
+      cl.tag("libfuzzer-artifact");
+      let v = guarded(sub, &case, &mut cl);
+      let h = hash_of(&data);
+      self.observe(&mut rep, i as u64, || serde_json::to_value(&case).unwrap_or(Value::Null), &cl, h);
+      if let Verdict::Violation { sig, detail } = v {
+        if self.known.contains(&sig) {
+          *rep.known_hits.entry(sig).or_insert(0) += 1;
+        } else if seen.insert(sig.clone()) {
+          rep.found.push(Found { sub: sub.name(), sig, detail, case: serde_json::to_value(&case).unwrap_or(Value::Null), shrunk: false });
+        }
+      }
+    }
+    if let Ok(txt) = std::fs::read_to_string(dir.join("stats.json")) {
+      if let Ok(v) = serde_json::from_str::<Value>(&txt) {
+        rep.extra.insert("libfuzzer".into(), v);
+      }
+    }
+    rep.extra.insert("artifacts_rejudged".into(), json!(files.len()));
+    rep.wall_s = t0.elapsed().as_secs_f64();
+    self.reports.lock().unwrap().push(rep);
+  }
+
   /// A sub-check that computes its own report (histories measured as a whole, e.g. C10).
   pub fn push_report(&self, rep: SubReport) {
     self.reports.lock().unwrap().push(rep);
